@@ -30,7 +30,7 @@ COMPONENTS = {'real': ['kawin.precipitation.* (TemperatureParameters, KWNEuler._
 def plan(tier):
     if tier == 'quick':
         return dict(runs=260, batch=3, hard_timeout=600, soft_timeout=200)
-    return dict(runs=12000, batch=8, hard_timeout=1800, soft_timeout=300)
+    return dict(runs=7000, batch=8, hard_timeout=1800, soft_timeout=300)
 
 
 def gen_schedule(rng, total_s, T0):
